@@ -435,6 +435,21 @@ theorem doubled_separator_in_place :
     findEnhanced A b!"my_foo_bar__" b!"foo_bar" b!"baz_qux" (variantKeys A b!"foo_bar" libStyles) libStyles =
       [⟨1, 3, 3, 10, b!"foo_bar", b!"foo_bar"⟩] := by decide +kernel
 
+/-- THE TERM TWICE IN ONE IDENTIFIER (seeds C07e / C07f recorded the matched windows in the coordinates of the token list
+    AFTER earlier splices; with a replacement of another word count the window of the second occurrence shifted, the re-join
+    guard looked at the wrong gap and a doubled separator was collapsed).  With the windows in the coordinates of the ORIGINAL
+    tokens: a doubled separator before or after the second occurrence makes the compound matcher stay silent, and the exact
+    pass marks exactly the two spans; with single separators throughout it answers, and both occurrences are replaced. -/
+theorem twice_in_one_identifier_in_place :
+    findCompound A b!"foo_bar_x__foo_bar" b!"foo_bar" b!"baz" libStyles = none ∧
+    (findEnhanced A b!"foo_bar_x__foo_bar" b!"foo_bar" b!"baz" (variantKeys A b!"foo_bar" libStyles) libStyles).map
+      (fun m => (m.start, m.stop, m.variant)) = [(0, 7, b!"foo_bar"), (11, 18, b!"foo_bar")] ∧
+    findCompound A b!"foo_bar_x_foo_bar__y" b!"foo_bar" b!"alpha_beta_gamma" libStyles = none ∧
+    (findEnhanced A b!"foo_bar_x_foo_bar__y" b!"foo_bar" b!"alpha_beta_gamma" (variantKeys A b!"foo_bar" libStyles)
+      libStyles).map (fun m => (m.start, m.stop, m.variant)) = [(0, 7, b!"foo_bar"), (10, 17, b!"foo_bar")] ∧
+    findCompound A b!"foo_bar_x_foo_bar_y" b!"foo_bar" b!"baz" libStyles =
+      some ⟨b!"foo_bar_x_foo_bar_y", b!"baz_x_baz_y", .snake⟩ := by decide +kernel
+
 /-- formerly finding `leading_underscores_lost` -/
 theorem leading_underscores_in_place :
     findCompound A b!"___foo_bar_x" b!"foo_bar" b!"baz_qux" libStyles = none ∧
